@@ -420,14 +420,24 @@ namespace AIToolbox::POMDP {
         const auto updateMatrix = [&](SparseMatrix2D & m, const Belief & b, size_t a, size_t o, size_t index) {
             updateBeliefUnnormalized(model, b, a, o, &helper);
             auto sum = helper.sum();
-            if (checkDifferentSmall(sum, 0.0)) {
+            if (sum > 0.0) {
                 // Note that we do not normalize helper since we'd also have to
                 // multiply `dist` by the same probability. Instead we don't
                 // normalize, and we don't multiply, so we save some work.
                 Vector dist = std::get<1>(LPInterpolation(helper, ubQ, ubV));
-                for (size_t i = 0; i < S; ++i)
-                    if (checkDifferentSmall(dist[i], 0.0))
+                // The row must account for all the mass of the successor: what
+                // the points we keep do not cover goes to the corners. Dropping
+                // the entries and weights below the comparison tolerance would
+                // lower the bound (that mass is really there).
+                for (size_t i = model.getS(); i < S; ++i) {
+                    if (checkDifferentSmall(dist[i], 0.0)) {
                         m.insert(index, i) = dist[i];
+                        helper.noalias() -= dist[i] * ubV.first[i - model.getS()];
+                    }
+                }
+                for (size_t s = 0; s < model.getS(); ++s)
+                    if (helper[s] > 0.0)
+                        m.insert(index, s) = helper[s];
             }
         };
 
